@@ -22,7 +22,10 @@ case "$mut" in
               git -C "$wt" revert --abort >/dev/null 2>&1; git -C "$wt" reset -q --hard HEAD
               git -C "$wt" show "${mut#revert:}" | git -C "$wt" apply -R --recount -C1 2>/dev/null || { echo "SELFTEST cannot revert ${mut#revert:}"; exit 2; }
             } ;;
-  file:*)   git -C "$wt" apply "${mut#file:}" || { echo "SELFTEST cannot apply ${mut#file:}"; exit 2; } ;;
+  file:*)   git -C "$wt" apply "${mut#file:}" 2>/dev/null \
+              || git -C "$wt" apply --recount -C1 "${mut#file:}" 2>/dev/null \
+              || (cd "$wt" && patch -p1 -F3 -s < "${mut#file:}" >/dev/null 2>&1) \
+              || { echo "SELFTEST cannot apply ${mut#file:}"; exit 2; } ;;
   *) echo "bad mutant spec"; exit 2;;
 esac
 out="$(VERIF_REPO="$wt" VERIF_OUT_DIR="$wt/.verif-out" ./check "$prop" "$tier" 2>&1)"
